@@ -213,6 +213,19 @@ fn header_lines<K: Io>(ctx: &mut Ctx, binary: bool) {
                         let mut ls = owned.clone();
                         ls.insert(at, line.clone());
                         files.push((format!("entry {i} {what}, inserted at position {at}"), join(&ls), same));
+                        // a repeated node count that is one smaller, with a node section that really has one
+                        // node less (ASCII: the last node line removed): consistent except for the roots
+                        if !binary && text.starts_with(".nnodes") && what.ends_with("by -1") {
+                            let body = String::from_utf8_lossy(rest).to_string();
+                            let mut bl: Vec<&str> = body.split_inclusive('\n').collect();
+                            if let Some(endpos) = bl.iter().position(|l| l.starts_with(".end")) {
+                                if endpos >= 2 {
+                                    bl.remove(endpos - 1);
+                                    let file: Vec<u8> = ls.iter().flatten().copied().chain(bl.concat().into_bytes()).collect();
+                                    files.push((format!("entry {i} {what}, inserted at position {at}, last node line removed"), file, false));
+                                }
+                            }
+                        }
                     }
                 }
             }
